@@ -65,8 +65,78 @@ def new_shaper(inp, cfg):
     return Shaper(raw_graph=inp["text"], input_format=inp["format"], **kw)
 
 
-def shex(shaper, fmt=SHEXC, t=0):
+def _shex(shaper, fmt=SHEXC, t=0):
     return shaper.shex_graph(string_output=True, output_format=fmt, acceptance_threshold=t)
+
+
+HISTORY_KINDS = ("repeat", "threshold", "format", "profile")
+
+
+class History(object):
+    """Call-history sub-family: the checked call is embedded in a history on the SAME Shaper; the caller's oracle is
+    applied to the LAST result; results that must be equal are compared here (problems: [(what, text)])."""
+
+    def __init__(self, kind):
+        self.kind = kind
+        self.problems = []
+        self.calls = 0
+
+    @staticmethod
+    def canon(fmt, text):
+        if fmt != SHACL or not isinstance(text, str):
+            return text
+        try:
+            shapes, dangling, problems = parse_shacl(text)
+        except ShaclError:
+            return text
+        return sorted((lab, d["target"], d["pattern"],
+                       sorted(((p["dir"], p["p"], p["restr"], p["min"], p["max"]) for p in d["props"]), key=repr))
+                      for lab, d in shapes.items())
+
+    def same(self, what, fmt, a, b):
+        if self.canon(fmt, a) != self.canon(fmt, b):
+            self.problems.append((what, "%s: the two results differ (%s)\n--- first\n%s\n--- later\n%s"
+                                  % (what, fmt, str(a)[:900], str(b)[:900])))
+
+    def run(self, shaper, fmt, t):
+        self.calls += 1
+        other_fmt = SHACL if fmt == SHEXC else SHEXC
+        t2 = 1 if t != 1 else 0.5
+        if self.kind == "repeat":
+            a = _shex(shaper, fmt, t)
+            b = _shex(shaper, fmt, t)
+            self.same("repeated-call-differs", fmt, a, b)
+            return b
+        if self.kind == "threshold":
+            a = _shex(shaper, fmt, t)
+            _shex(shaper, fmt, t2)
+            c = _shex(shaper, fmt, t)
+            self.same("threshold-roundtrip-differs", fmt, a, c)
+            return c
+        if self.kind == "format":
+            a = _shex(shaper, fmt, t)
+            _shex(shaper, other_fmt, t)
+            c = _shex(shaper, fmt, t)
+            self.same("format-roundtrip-differs", fmt, a, c)
+            return c
+        if self.kind == "profile":
+            p1 = shaper.profile_graph(string_output=True)
+            a = _shex(shaper, fmt, t)
+            p2 = shaper.profile_graph(string_output=True)
+            self.same("profile-changes-after-shex-graph", "profile", p1, p2)
+            c = _shex(shaper, fmt, t)
+            self.same("repeated-call-after-profile-differs", fmt, a, c)
+            return c
+        raise ValueError(self.kind)
+
+
+HISTORY = None          # set per case by schemas._run_case (one case at a time per process)
+
+
+def shex(shaper, fmt=SHEXC, t=0):
+    if HISTORY is None:
+        return _shex(shaper, fmt, t)
+    return HISTORY.run(shaper, fmt, t)
 
 
 def crash_where(exc):
